@@ -270,4 +270,4 @@ if __name__ == '__main__':
                      'real DELETE /allocations',
                      'provider_summaries oracle: capacity = trunc(fmul(total-'
                      'reserved, ratio)), used = sum of allocation rows'],
-        quick_budget=170, thorough_budget=1700))
+        quick_budget=420, thorough_budget=2400))
